@@ -50,6 +50,10 @@ type oracleLevel struct {
 }
 
 var precOracle = []oracleLevel{
+	// the two lowest levels are not in the manual's table; they are the first two precedence lines of PHP's own
+	// grammar (zend_language_parser.y): `include $a or die()` includes `$a or die()`
+	{[]string{"T_INCLUDE", "T_INCLUDE_ONCE", "T_EVAL", "T_REQUIRE", "T_REQUIRE_ONCE"}, ""},
+	{[]string{"','"}, ""},
 	{[]string{"T_LOGICAL_OR"}, "left"},
 	{[]string{"T_LOGICAL_XOR"}, "left"},
 	{[]string{"T_LOGICAL_AND"}, "left"},
@@ -73,6 +77,7 @@ var precOracle = []oracleLevel{
 	{[]string{"T_INSTANCEOF"}, ""},
 	{[]string{"'~'", "T_INC", "T_DEC", "T_INT_CAST", "T_DOUBLE_CAST", "T_STRING_CAST", "T_ARRAY_CAST", "T_OBJECT_CAST", "T_BOOL_CAST", "T_UNSET_CAST", "'@'"}, ""},
 	{[]string{"T_POW"}, "right"},
+	{[]string{"'['"}, ""},
 	{[]string{"T_NEW", "T_CLONE"}, ""},
 }
 
